@@ -72,6 +72,7 @@ DiagKv ==
       \o B(\E i \in ls : d.lines[i].c, ":inline-comment")
       \o B(\E i \in ls : d.lines[i].t = "bare", ":no-separator")
       \o B(\E i \in ls : d.lines[i].t = "pair" /\ d.lines[i].v = <<>>, ":empty-value")
+      \o B(d.filt # <<>>, ":filter") \o B(d.cc = <<>>, ":no-comment-char")
 
 RowDiff(res, norm) ==
     IF Len(res) # Len(norm) THEN "row-count"
@@ -79,6 +80,8 @@ RowDiff(res, norm) ==
     ELSE "cell-differs"
 CellKind(c, w) == IF c = <<>> THEN "empty-cell" ELSE IF Len(c) = w THEN "full-width-cell"
                   ELSE IF \E i \in DOMAIN c : Blank(c[i]) THEN "inner-space-cell" ELSE "word-cell"
+
+BlanksOnly(ls) == \E i \in DOMAIN ls : ls[i] # <<>> /\ Strip(ls[i]) = <<>>
 
 DiagFixed ==
     LET t == Ev.tab  norm == NormalFixed(t) IN
@@ -88,12 +91,14 @@ DiagFixed ==
                  LET n == CHOOSE n \in DOMAIN norm : Rng(Ev.res[n]) # Rng(norm[n])
                      i == CHOOSE i \in DOMAIN norm[n] : norm[n][i] \notin Rng(Ev.res[n]) IN
                  ":" \o CellKind(norm[n][i].v, t.cols[i].w) \o B(i = Len(t.cols), "-last-column"))
-             \o B(t.margin > 0, ":margin") \o B(t.hi, ":leading-junk") \o B(t.ti # <<>>, ":footer"))
+             \o B(t.margin > 0, ":margin") \o B(t.hi, ":leading-junk") \o B(t.ti # <<>>, ":footer")
+             \o B(BlanksOnly(t.foot), ":blanks-only-footer-line"))
 
 DiagDelim ==
     LET t == Ev.tab  norm == NormalDelim(t) IN
     "RoundTrip:delim:" \o (IF Ev.exc # "" THEN "exception" ELSE RowDiff(Ev.res, norm))
       \o B(t.delim = <<>>, ":whitespace") \o B(t.hi, ":leading-junk") \o B(t.ti # <<>>, ":footer")
+      \o B(BlanksOnly(t.foot), ":blanks-only-footer-line")
       \o B(\E r \in DOMAIN t.rows : Len(t.rows[r]) < Len(t.names), ":short-row")
       \o B(\E r \in DOMAIN t.rows : \E i \in DOMAIN t.rows[r] : t.rows[r][i] = <<>>, ":empty-cell")
 
